@@ -577,6 +577,7 @@ func (conn *Conn) CallWithContext(ctx context.Context, serviceMethod string, arg
 func (conn *Conn) NewStream(serviceMethod string) (Stream, error) {
 	stream := &stream{unmarshal: conn.codec.ReadResponseBody, noCopy: conn.noCopy}
 	stream.cond.L = &stream.mut
+	vhook("c.stream.new", conn, stream, 0, 0)
 	upgrade := getUpgrade()
 	upgrade.NoRequest = noRequest
 	upgrade.NoResponse = noResponse
